@@ -173,4 +173,38 @@ func NewSetFromValues
   ensures[members] forall x V :: {mem(result, x)} mem(result, x) == (exists k K :: has(m, k) && m[k] == x)
   loop 0 invariant forall x V :: {mem(&set, x)} mem(&set, x) == (exists k K :: visited[k] && has(m, k) && m[k] == x)
   loop 0 invariant forall k K :: {visited[k]} visited[k] ==> has(m, k)
+
+// ---------------------------------------------------------------- C05: sync2.Set is an atomic set under concurrent use
+// Concurrent-wrapper mode: every call of a sync2.Map method is one atomic action (ASSUMED linearizable: C04);
+// the abstract map is havocked before every action (arbitrary interference). `ensures` (here: the sequential
+// clauses of the Set interface) must hold AT the single action; no plain access to shared memory is allowed.
+
+func Set.Has#atomic
+  property C05
+  mode atomic
+  opt actions 1
+  implements sets.Set.Has
+  requires s != nil
+
+func Set.Add#atomic
+  property C05
+  mode atomic
+  opt actions 1
+  implements sets.Set.Add
+  requires s != nil
+
+func Set.Remove#atomic
+  property C05
+  mode atomic
+  opt actions 1
+  implements sets.Set.Remove
+  requires s != nil
+
+// The alternation law of the statement follows from per-call atomicity by induction over any linearization:
+// for one value, let m be its membership before a step, m2 after, c the number of successful Adds minus
+// successful Removes so far. Each step is an Add (kind 1), Remove (kind 2) or Has/other (kind 0) obeying the
+// sequential clauses above. Then c stays equal to b2i(membership) — so c is always 0 or 1, successful Adds and
+// Removes of a value alternate starting with an Add, and c equals the final membership.
+lemma C05 alternation_base(c int): c == 0 ==> c == b2i(false)
+lemma C05 alternation_step(m bool, m2 bool, kind int, ok bool, c int, c2 int): (c == b2i(m) && (kind == 1 ==> ok == !m && m2 == true) && (kind == 2 ==> ok == m && m2 == false) && (kind != 1 && kind != 2 ==> m2 == m) && c2 == c + b2i(kind == 1 && ok) - b2i(kind == 2 && ok)) ==> (c2 == b2i(m2) && 0 <= c2 && c2 <= 1 && (kind == 1 && ok ==> c == 0) && (kind == 2 && ok ==> c == 1))
 @*/
